@@ -1189,6 +1189,7 @@ impl<'a> Gen<'a> {
             alloc_yield_mean: 0,
             clock_step_ns: 0,
             block_yield_mean: 0,
+            atomic_yield_mean: 0,
         }
     }
 
@@ -1271,6 +1272,7 @@ impl<'a> Gen<'a> {
             alloc_yield_mean: 0,
             clock_step_ns: 0,
             block_yield_mean: 0,
+            atomic_yield_mean: 0,
         }
     }
 
@@ -1330,6 +1332,7 @@ impl<'a> Gen<'a> {
             alloc_yield_mean: 0,
             clock_step_ns: 0,
             block_yield_mean: 0,
+            atomic_yield_mean: 0,
         }
     }
 
@@ -1436,6 +1439,7 @@ impl<'a> Gen<'a> {
             alloc_yield_mean: 0,
             clock_step_ns: *r.pick(&[0u64, 0, 0, 1_000_000, 1_000_000_000, 50_000_000_000]),
             block_yield_mean: 0,
+            atomic_yield_mean: 0,
         }
     }
 
@@ -1521,6 +1525,8 @@ impl<'a> Gen<'a> {
             clock_step_ns: *r.pick(&[0u64, 0, 0, 1_000_000, 1_000_000_000, 50_000_000_000]),
             // block-level preemption (threads engine): off, coarse, fine
             block_yield_mean: *r.pick(&[0u32, 0, 0, 100_000, 10_000, 1_000]),
+            // atomic-operation preemption (threads engine): off, coarse, fine, every one
+            atomic_yield_mean: *r.pick(&[0u32, 0, 200, 20, 3, 1]),
         }
     }
 }
